@@ -233,3 +233,23 @@ func Chain(certs ...*Ident) [][]*x509.Certificate {
 	}
 	return [][]*x509.Certificate{c}
 }
+
+// RawDN encodes a distinguished name with exactly the given attributes in the given order, one
+// attribute per RDN: RawDN("CN", "x", "O", "verif"). Used for names which are distinct on the wire
+// but collide under lossy renderings (attribute order, repeated CN, letter case).
+func RawDN(pairs ...string) []byte {
+	oid := map[string]asn1.ObjectIdentifier{"C": {2, 5, 4, 6}, "O": {2, 5, 4, 10}, "OU": {2, 5, 4, 11}, "CN": {2, 5, 4, 3}, "L": {2, 5, 4, 7}, "SERIALNUMBER": {2, 5, 4, 5}}
+	var seq pkix.RDNSequence
+	for i := 0; i+1 < len(pairs); i += 2 {
+		o, ok := oid[pairs[i]]
+		if !ok {
+			panic("world.RawDN: unknown attribute " + pairs[i])
+		}
+		seq = append(seq, pkix.RelativeDistinguishedNameSET{{Type: o, Value: pairs[i+1]}})
+	}
+	b, err := asn1.Marshal(seq)
+	if err != nil {
+		panic(err)
+	}
+	return b
+}
